@@ -27,7 +27,9 @@ EXTENDS Integers, Sequences, FiniteSets
 CONSTANTS
     Outer,          \* first level of the choice of a case (any set)
     Inner(_),       \* Inner(o): the set of complete case records for outer choice o
-    Escapes         \* the path tokens that are percent escapes
+    Escapes,        \* the path tokens that are percent escapes
+    Encoded,        \* function: text that cannot stand in a path as it is |-> the escape it is written as ("^" |-> "%5E")
+    Decoded         \* function: escape, in any spelling a client may use |-> the text it stands for ("%5e" |-> "^")
 
 VARIABLES
     pc,     \* where the request is in the pipeline
@@ -50,6 +52,14 @@ EscapesOf(p)   == LET F[k \in 0..Len(p)] == IF k = 0 THEN <<>>
                                             ELSE IF p[k] \in Escapes THEN Append(F[k-1], p[k]) ELSE F[k-1]
                   IN F[Len(p)]
 
+\* the text of a route option (strip=, prepend=) is plain text; on the wire and in the client's request the
+\* characters that cannot stand in a path appear percent-encoded
+Wire(t)        == IF t \in DOMAIN Encoded THEN Encoded[t] ELSE t
+WireSeq(p)     == [k \in DOMAIN p |-> Wire(p[k])]
+Dec(t)         == IF t \in DOMAIN Decoded THEN Decoded[t] ELSE t
+\* p (option text) is a prefix of the raw path s, however the client spelled it
+IsPrefixDec(p, s) == Len(p) <= Len(s) /\ \A k \in DOMAIN p : Dec(s[k]) = p[k]
+
 \* placeholders of the right shape for "nothing yet"
 NoRouteRec == [src |-> <<>>, strip |-> <<>>, prepend |-> <<>>, hostopt |-> "", tquery |-> <<>>,
                code |-> [txt |-> "", num |-> 0],
@@ -67,9 +77,9 @@ NoOut  == [kind |-> "", status |-> 0, page |-> "", loc |-> NoLoc, resp |-> "", s
 \*   the path is rewritten only by strip and prepend, prepending after stripping, percent escapes
 \*   stay as the client wrote them, the result is an absolute path;
 \*   the route's own query goes in front of the request's; Host only changes when the route says so.
-StripApplies(r, raw) == r.strip # <<>> /\ IsPrefix(r.strip, raw)
+StripApplies(r, raw) == r.strip # <<>> /\ IsPrefixDec(r.strip, raw)
 AfterStrip(r, raw)   == IF StripApplies(r, raw) THEN Abs(Drop(raw, Len(r.strip))) ELSE raw
-AfterPrepend(r, p)   == IF r.prepend # <<>> THEN Abs(r.prepend \o p) ELSE p
+AfterPrepend(r, p)   == IF r.prepend # <<>> THEN Abs(WireSeq(r.prepend) \o p) ELSE p
 UpstreamPath(r, raw) == AfterPrepend(r, AfterStrip(r, raw))
 UpstreamQuery(r, q)  == r.tquery \o q                  \* parameters; written "t&q" on the wire
 UpstreamHost(r)      == IF r.hostopt = "" THEN "req"   \* the Host the client asked for
@@ -79,7 +89,7 @@ UpstreamHost(r)      == IF r.hostopt = "" THEN "req"   \* the Host the client as
 \* C13: redirect routes
 IsRedirect(r) == r.code.num >= 300 /\ r.code.num <= 399   \* any other redirect= value: an ordinary route
 \* $path: the request's path after the route's strip and prepend
-RedirPath(r, raw) == r.prepend \o (IF StripApplies(r, raw) THEN Drop(raw, Len(r.strip)) ELSE raw)
+RedirPath(r, raw) == WireSeq(r.prepend) \o (IF StripApplies(r, raw) THEN Drop(raw, Len(r.strip)) ELSE raw)
 \* ".../$path" and "...$path" both join without doubling the slash
 JoinTpl(t, p) == IF t.slash /\ ~(p # <<>> /\ p[1] = "/") THEN t.pre \o <<"/">> \o p ELSE t.pre \o p
 Location(r, raw, q) ==
@@ -111,8 +121,15 @@ Eq(v) == [mode |-> "eq", vals |-> v]
 \* the configured client-IP header is overwritten with the peer
 ExpClientIP  == IF c.cfgip THEN Eq(<<"peer">>) ELSE Eq(ClientVals("clientip"))
 \* the peer is appended as the last element of X-Forwarded-For (one client line holds "x1", a second "x2, x3")
-XffClient    == CASE c.forged["xff"] = "absent" -> <<>> [] c.forged["xff"] = "twice" -> <<"x1", "x2", "x3">> [] OTHER -> <<"x1">>
-ExpXFF       == [mode |-> "list", vals |-> XffClient \o <<"peer">>]
+\* ... also when the client's list is crafted from the peer's own address: an element whose text merely ends
+\* ("sfx") or starts ("pfx") with it, or the peer itself ("dup": whether it is then listed twice is not judged)
+XffClient    == CASE c.forged["xff"] = "absent" -> <<>>
+                  [] c.forged["xff"] = "twice"  -> <<"x1", "x2", "x3">>
+                  [] c.forged["xff"] = "sfx"    -> <<"x1", "sfxpeer">>
+                  [] c.forged["xff"] = "pfx"    -> <<"x1", "peerpfx">>
+                  [] c.forged["xff"] = "dup"    -> <<"x1", "peer">>
+                  [] OTHER -> <<"x1">>
+ExpXFF       == [mode |-> IF c.forged["xff"] = "dup" THEN "listdup" ELSE "list", vals |-> XffClient \o <<"peer">>]
 \* X-Real-Ip carries the peer unless the client already sent one
 ExpRealIP    == IF Sent("xrealip") THEN Eq(ClientVals("xrealip")) ELSE Eq(<<"peer">>)
 \* the TLS header is present with the configured value exactly when the connection used TLS, whatever was sent
@@ -150,7 +167,7 @@ ChooseCase  == /\ pc = "outer"
                /\ UNCHANGED <<sel, route, up, hits, out>>
 
 \* candidate routes are examined in the order of the matching hosts, most specific first
-Matches(r) == IsPrefix(r.src, c.path)
+Matches(r) == IsPrefixDec(r.src, c.path)
 PassOver(r) == ~Matches(r) \/ (IsRedirect(r) /\ PointsBack(r))
 Lookup   == /\ pc = "lookup" /\ i <= Len(c.routes) /\ ~PassOver(c.routes[i])
             /\ route' = c.routes[i] /\ pc' = "found"
@@ -205,7 +222,7 @@ AnsweredLocally == (pc = "done" /\ out.kind \in {"noroute", "denied", "redirect"
 EveryAnswerHasAKind == pc = "done" => out.kind \in {"noroute", "denied", "redirect", "upstream"}
 \* C07
 PathStaysAbsolute == Forwarded => up.path # <<>> /\ up.path[1] = "/"
-EscapesSurvive    == Forwarded => EscapesOf(up.path) =
+EscapesSurvive    == Forwarded => EscapesOf(up.path) = EscapesOf(WireSeq(route.prepend)) \o
                                     EscapesOf(IF StripApplies(route, c.path) THEN Drop(c.path, Len(route.strip)) ELSE c.path)
 OnlyStripAndPrepend == (Forwarded /\ route.strip = <<>> /\ route.prepend = <<>>) => up.path = c.path
 QueryMergedInFront == Forwarded => IsPrefix(route.tquery, up.query) /\ Drop(up.query, Len(route.tquery)) = c.query
